@@ -1252,7 +1252,7 @@ def conditional_sweep(rng, tier):
 
 
 def random_scripts(rng, tier):
-    n = 3000 if tier == "quick" else 60000
+    n = 6000 if tier == "quick" else 120000
     for i in range(n):
         script, _ = gen_seq(rng, rng.randint(1, 12), 0, 0)
         st = [rng.choice(NUM_OPERANDS) for _ in range(rng.choice([0, 0, 1, 2, 4]))]
@@ -1397,7 +1397,7 @@ HASHTYPES = [1, 1, 1, 2, 3, 0x81, 0x82, 0x83]
 PK_FORMS = ["c", "c", "c", "u", "u", "h", "hbad", "cbadprefix", "xoverflow", "offcurve", "short", "empty"]
 SPEND_KINDS = ["p2pk", "p2pk_not", "p2pkh", "ms", "ms_not", "p2sh_p2pk", "p2sh_ms", "p2sh_codesep", "p2wpkh", "p2wsh_p2pk",
                "p2wsh_ms", "p2wsh_codesep", "p2wsh_if", "p2wsh_big", "p2wsh_items", "p2sh_p2wpkh", "p2sh_p2wsh", "future",
-               "p2sh_future", "cltv", "csv", "nonstandard", "p2sh_nonstandard", "p2wsh_nonstandard"]
+               "p2sh_future", "cltv", "csv", "nonstandard", "p2sh_nonstandard", "p2wsh_nonstandard", "fad", "fad_ms", "codesep_if", "p2wsh_codesep_if", "scriptsig_checksig"]
 TWEAKS = ["none"] * 8 + ["sig_nop", "sig_extra_push", "sig_pushdata1", "sig_nonempty", "unexpected_witness", "program_mismatch",
                          "drop_witness_item", "extra_witness_item", "sig_nonpush", "wrong_redeem", "sig_op_reserved",
                          "empty_witness", "sig_dup_push"]
@@ -1521,6 +1521,56 @@ def build_spend(rng, kind, variants, flags, tweak, lax=False):
         else:
             spk = b"\xa9\x14" + hash160(prog) + b"\x87"
             ssig = P_(prog)
+    elif kind == "fad":
+        # the scriptPubKey contains the signature itself: only FindAndDelete makes such a signature possible
+        k = sec(12, "c")
+        tailscript = b"\x75" + P_(k) + b"\xac"
+        shape = rng.choice(["direct", "twice", "pd1", "inside", "after_codesep", "truncated_tail"])
+        ht = rng.choice(HASHTYPES)
+        # the digest the signature must commit to depends on which copies Core deletes: fixed point by construction
+        if shape in ("direct", "twice", "after_codesep"):
+            sig = S(tailscript if shape != "after_codesep" else tailscript, "B", 12, ht)
+            copies = P_(sig) * (2 if shape == "twice" else 1)
+            spk = (b"\xab" if shape == "after_codesep" else b"") + copies + (b"\x75" if shape == "twice" else b"") + tailscript
+        elif shape == "pd1":
+            # a PUSHDATA1 copy is NOT deleted by Core (the pattern is the plain push): must fail; an implementation
+            # that normalises pushes before comparing would accept
+            sig = S(tailscript, "B", 12, ht)
+            spk = b"\x4c" + bytes([len(sig)]) + sig + tailscript
+        elif shape == "inside":
+            sig = S(tailscript, "B", 12, ht)
+            spk = P_(b"\x99" + P_(sig)) + tailscript          # pattern inside another push: not at an opcode boundary
+        else:
+            sig = S(tailscript, "B", 12, ht)
+            spk = P_(sig) + tailscript
+        ssig = P_(sig)
+    elif kind == "fad_ms":
+        # 2-of-2 where the script code contains both signatures
+        ks = [sec(13, "c"), sec(14, "c")]
+        tailscript = b"\x6d" + multisig_script(2, ks)
+        s1, s2 = S(tailscript, "B", 13), S(tailscript, "B", 14)
+        spk = P_(s2) + P_(s1) + tailscript
+        ssig = b"\x00" + P_(s1) + P_(s2)
+    elif kind in ("codesep_if", "p2wsh_codesep_if"):
+        # IF CODESEPARATOR ENDIF <k> CHECKSIG : the script code depends on the branch taken
+        k = sec(15, "c")
+        script = b"\x63\xab\x68" + P_(k) + b"\xac"
+        sel = rng.choice([b"\x01", b""])
+        code = (b"\x68" + P_(k) + b"\xac") if sel else script
+        if rng.random() < 0.15:
+            code = script if sel else (b"\x68" + P_(k) + b"\xac")      # signed for the wrong branch
+        if kind == "codesep_if":
+            spk = script
+            ssig = P_(S(code, "B", 15)) + push_min(sel)
+        else:
+            spk = b"\x00\x20" + sha256(script)
+            wit = [S(code, "W", 15), sel, script]
+    elif kind == "scriptsig_checksig":
+        # the signature check runs inside the scriptSig: script code = scriptSig minus the signature push
+        k = sec(16, pkform)
+        tailscript = P_(k) + b"\xac"
+        ssig = P_(S(tailscript, "B", 16)) + tailscript
+        spk = rng.choice([b"\x61", b"", b"\x69\x51", b"\x91\x91"])
     elif kind in ("cltv", "csv"):
         op = b"\xb1" if kind == "cltv" else b"\xb2"
         n = rng.choice([0, 1, 10, 100, 499999999, 500000000, 500000001, 0x7FFFFFFF, 0x80000000, 0xFFFFFFFF, 0x00400005, 0x00400000,
@@ -1586,8 +1636,10 @@ def build_spend(rng, kind, variants, flags, tweak, lax=False):
 
 
 def spend_cases(rng, tier):
-    n = 700 if tier == "quick" else 14000
+    n = 1500 if tier == "quick" else 30000
     i = 0
+    for c in program_shape_cases(rng, tier):
+        yield c
     # systematic: every kind x every strict signature variant, untweaked, under a spread of flag sets
     for kind in SPEND_KINDS:
         for var in ["valid", "high_s", "wrong_key", "wrong_msg", "empty", "undefined_hashtype", "s_ge_n", "r_ge_n", "zero_s"]:
@@ -1606,6 +1658,41 @@ def spend_cases(rng, tier):
         for fl in sets:
             rng.setstate(st)                      # the same spend under both flag sets
             yield build_spend(rng, kind, variants, fl, tweak)
+
+
+def program_shape_cases(rng, tier):
+    """witness-program and P2SH pattern boundaries: sizes 3..43, version opcodes around OP_0/OP_1..OP_16, length byte
+    off by one; 22/23/24-byte HASH160 shapes"""
+    tx = SynTx(2, [[b"\x22" * 32, 1, b"", 0xFFFFFFFE, []]], [[1, b"\x51"]], 0)
+    flagsets = [close_flags(FL["WITNESS"]), close_flags(FL["WITNESS"] | FL["CLEANSTACK"]), FL["P2SH"], 0,
+                close_flags(FL["WITNESS"] | FL["DISCOURAGE_UPGRADABLE_WITNESS_PROGRAM"])]
+    for first in (0x00, 0x4F, 0x50, 0x51, 0x52, 0x60, 0x61):
+        for size in (3, 4, 5, 22, 34, 41, 42, 43):
+            for dl in (-1, 0, 1):
+                ln = size - 2 + dl
+                if ln < 0 or ln > 75:
+                    continue
+                spk = bytes([first, ln]) + b"\x07" * (size - 2)
+                for fl in flagsets:
+                    for wit in ([], [b"\x01"], [b"\x01", b"\x51"]):
+                        for ssig in (b"", b"\x51"):
+                            t = SynTx(tx.version, [list(tx.vin[0])], tx.vout, tx.locktime)
+                            t.vin[0][2], t.vin[0][4] = ssig, wit
+                            yield SpendCase(fl, t, 0, spk, 5, "progshape/%02x/%d/%d" % (first, size, dl))
+                            # the same program behind P2SH
+                            t2 = SynTx(tx.version, [list(tx.vin[0])], tx.vout, tx.locktime)
+                            t2.vin[0][2], t2.vin[0][4] = ssig[:0] + push_raw(spk), wit
+                            yield SpendCase(fl, t2, 0, b"\xa9\x14" + hash160(spk) + b"\x87", 5, "progshape_p2sh")
+    redeem = b"\x51"
+    h = hash160(redeem)
+    shapes = [b"\xa9\x14" + h + b"\x87", b"\xa9\x4c\x14" + h + b"\x87", b"\xa9\x14" + h + b"\x88", b"\xa9\x14" + h + b"\x87\x61",
+              b"\xa9\x13" + h[:19] + b"\x87", b"\xa9\x15" + h + b"\x00\x87", b"\xa8\x14" + h + b"\x87", b"\xa9\x14" + h[:19] + b"\x00\x87"]
+    for spk in shapes:
+        for ssig in (push_raw(redeem), b"\x51" + push_raw(redeem), b"\x61" + push_raw(redeem), push_raw(b"\x00"), b"\x4c\x01\x51", b""):
+            for fl in (0, FL["P2SH"], close_flags(FL["CLEANSTACK"]), FL["P2SH"] | FL["SIGPUSHONLY"], FL["P2SH"] | FL["MINIMALDATA"]):
+                t = SynTx(tx.version, [list(tx.vin[0])], tx.vout, tx.locktime)
+                t.vin[0][2] = ssig
+                yield SpendCase(fl, t, 0, spk, 5, "p2shshape")
 
 
 def derived_eval_cases(sp: SpendCase):
@@ -1628,3 +1715,437 @@ def lax_cases(rng, tier):
         var = LAX_VARIANTS[i % len(LAX_VARIANTS)]
         fl = rand_flags(rng) & ~DER_FLAGS
         yield var, build_spend(rng, kind, [var], close_flags(fl), "none", lax=True)
+
+
+# ================================================================================================
+# the differential: PropCase stream, classification, replay, search
+# ================================================================================================
+def _show(r):
+    if r[0] == "ok":
+        return {"result": "ok", "stack": None if r[1] is None else [x.hex() for x in r[1]][-8:], "depth": None if r[1] is None else len(r[1])}
+    return {"result": r[0], "detail": r[1]}
+
+
+def _agree(spec, impl):
+    if spec[0] == "ok":
+        return impl[0] == "ok" and spec[1] == impl[1]
+    return impl[0] == "fail"
+
+
+def chk_eval(c: EvalCase):
+    R = runner()
+    spec = _decode(R.run(c), False)
+    lax, sigs = R.lax_used, list(R.sigs_seen)
+    impl = impl_eval(c)
+    STATS["eval"] += 1
+    if spec[0] == "ok":
+        STATS["eval_ok"] += 1
+    if _agree(spec, impl):
+        return None
+    if lax and impl[0] != "crash":
+        STATS["lax_region_diffs_in_main_stream"] += 1
+        return None
+    kind = "crash" if impl[0] == "crash" else ("verdict" if spec[0] != impl[0] else "stack")
+    return {"kind": kind, "level": "eval", "impl": _show(impl), "spec": _show(spec), "flags": flag_names(c.flags),
+            "sigs": [x.hex() for x in sigs][:4]}
+
+
+def chk_spend(c: SpendCase):
+    R = runner()
+    spec = _decode(R.run(c), True)
+    lax, sigs = R.lax_used, list(R.sigs_seen)
+    impl = impl_verify(c)
+    STATS["spend"] += 1
+    if spec[0] == "ok":
+        STATS["spend_ok"] += 1
+    if _agree(spec, impl):
+        return None
+    if lax and impl[0] != "crash":
+        STATS["lax_region_diffs_in_main_stream"] += 1
+        return None
+    kind = "crash" if impl[0] == "crash" else "verdict"
+    return {"kind": kind, "level": "spend", "impl": _show(impl), "spec": _show(spec), "flags": flag_names(c.flags),
+            "sigs": [x.hex() for x in sigs][:4]}
+
+
+def chk_lax(var, c: SpendCase):
+    """informational only"""
+    spec = spec_verify([c])[0]
+    impl = impl_verify(c)
+    LAX_STATS["cases"] += 1
+    d = LAX_STATS["by_variant"].setdefault(var, {"agree": 0, "differ": 0, "crash": 0})
+    if impl[0] == "crash":
+        LAX_STATS["crash"] += 1
+        d["crash"] += 1
+        return {"kind": "crash", "level": "spend-lax", "impl": _show(impl), "spec": _show(spec), "flags": flag_names(c.flags)}
+    if spec[0] == impl[0]:
+        LAX_STATS["agree"] += 1
+        d["agree"] += 1
+    else:
+        LAX_STATS["differ"] += 1
+        d["differ"] += 1
+    return None
+
+
+def lax_report():
+    return dict(LAX_STATS)
+
+
+def stats_report():
+    r = runner()
+    d = dict(STATS)
+    d.update({"checksig_oracle_calls": r.checksig_calls, "checksig_true": r.checksig_true, "oracle_calls": r.oracle_calls})
+    return d
+
+
+def chk_vectors():
+    rep = validate_spec_on_vectors()
+    if rep["failures"] or rep["not_run"]:
+        f = (rep["failures"] + rep["not_run"])[0]
+        f = {k: v for k, v in f.items() if k != "case"}
+        return {"kind": "spec-vector", "detail": "the extracted spec disagrees with Core's vectors", "first": f,
+                "n": len(rep["failures"])}
+    return None
+
+
+def vector_differential():
+    """the REAL implementation on Core's vectors, against the spec (redundant with /repo's own tests, kept as a
+    cheap sanity tie between the two sides)"""
+    for idx, c, expected, comment in script_test_vectors():
+        c.tag = "script_tests/%d" % idx
+        yield c
+
+
+def prop_cases(rng, tier):
+    yield PropCase("spec_vectors", {}, chk_vectors)
+    for c in vector_differential():
+        yield PropCase("spend", c.to_json(), (lambda c=c: chk_spend(c)))
+    for c in eval_cases(rng, tier):
+        yield PropCase("eval", c.to_json() if len(c.stack) < 50 and len(c.script) < 2000 else _compact_json(c), (lambda c=c: chk_eval(c)))
+    for c in spend_cases(rng, tier):
+        yield PropCase("spend", c.to_json(), (lambda c=c: chk_spend(c)))
+        for e in derived_eval_cases(c):
+            yield PropCase("eval", e.to_json(), (lambda e=e: chk_eval(e)))
+    for var, c in lax_cases(rng, tier):
+        yield PropCase("lax", dict(c.to_json(), variant=var), (lambda var=var, c=c: chk_lax(var, c)))
+
+
+def _compact_json(c: EvalCase):
+    """big regular cases: run-length form of script and stack"""
+    d = c.to_json()
+    d["script"] = _rle(c.script)
+    d["stack"] = [[x.hex(), 1] for x in c.stack] if len(c.stack) < 50 else _rle_list(c.stack)
+    d["compact"] = True
+    return d
+
+
+def _rle(b: bytes):
+    out = []
+    for x in b:
+        if out and out[-1][0] == x and True:
+            out[-1][1] += 1
+        else:
+            out.append([x, 1])
+    return out
+
+
+def _unrle(l):
+    return b"".join(bytes([x]) * n for x, n in l)
+
+
+def _rle_list(items):
+    out = []
+    for x in items:
+        h = x.hex()
+        if out and out[-1][0] == h:
+            out[-1][1] += 1
+        else:
+            out.append([h, 1])
+    return out
+
+
+def _eval_from_json(d):
+    if d.get("compact"):
+        d = dict(d)
+        d["script"] = _unrle(d["script"]).hex()
+        st = []
+        for h, n in d["stack"]:
+            st += [h] * n
+        d["stack"] = st
+    return EvalCase.from_json(d)
+
+
+def replay_input(check, inp):
+    if check == "eval":
+        return chk_eval(_eval_from_json(inp))
+    if check == "spend":
+        return chk_spend(SpendCase.from_json(inp))
+    if check == "lax":
+        return chk_lax(inp.get("variant", "?"), SpendCase.from_json(inp))
+    if check == "spec_vectors":
+        return chk_vectors()
+    return {"kind": "unknown-check"}
+
+
+# ---- known findings: executable predicates over (input, failure) ---------------------------------
+def _has_locktime_op_with_nonminimal_operand(script: bytes, flags: int) -> bool:
+    """CLTV/CSV (flag set) can meet an operand that is not its own minimal re-encoding only without MINIMALDATA"""
+    if flags & FL["MINIMALDATA"]:
+        return False
+    return ((flags & FL["CHECKLOCKTIMEVERIFY"]) and b"\xb1" in script) or ((flags & FL["CHECKSEQUENCEVERIFY"]) and b"\xb2" in script)
+
+
+def _sig_scalar_overflow(sig: bytes) -> bool:
+    """strict-DER signature whose r or s is not below the group order"""
+    if not is_strict_der(sig):
+        return False
+    lr = sig[3]
+    r = int.from_bytes(sig[4:4 + lr], "big")
+    ls = sig[5 + lr]
+    s_ = int.from_bytes(sig[6 + lr:6 + lr + ls], "big")
+    return r >= N_ORDER or s_ >= N_ORDER
+
+
+def classify(pc, r):
+    if not isinstance(r, dict):
+        return None
+    inp = pc.inp
+    if pc.name == "eval":
+        n_stack = sum(n for _h, n in inp["stack"]) if inp.get("compact") else len(inp["stack"])
+        if n_stack > 1000 and r.get("impl", {}).get("detail") == "STACK_SIZE" and r.get("spec", {}).get("result") == "ok":
+            return "initial-stack-over-1000"
+        script = _unrle(inp["script"]) if inp.get("compact") else bytes.fromhex(inp["script"])
+        if r.get("kind") in ("stack", "verdict") and _has_locktime_op_with_nonminimal_operand(script, inp["flags"]):
+            if _cltv_csv_reencode_explains(_eval_from_json(inp)):
+                return "cltv-csv-reencodes-operand"
+    if pc.name == "spend" and r.get("kind") == "verdict":
+        c = SpendCase.from_json(inp)
+        scripts = [c.script_pubkey, c.tx.vin[c.nin][2]] + list(c.tx.vin[c.nin][4])
+        if any(_has_locktime_op_with_nonminimal_operand(s_, c.flags) for s_ in scripts):
+            return "cltv-csv-reencodes-operand" if _spend_cltv_explains(c) else None
+    if r.get("kind") == "verdict" and (inp["flags"] & FL["LOW_S"]) and r.get("impl", {}).get("detail") == "SIG_HIGH_S" \
+            and r.get("spec", {}).get("result") == "ok":
+        if any(_sig_scalar_overflow(bytes.fromhex(h)) for h in r.get("sigs", [])):
+            return "low-s-overflowed-scalar"
+    return None
+
+
+def _strip_to_minimal_after_locktime(c: EvalCase):
+    """would the spec agree with pycoin if the operand under CLTV/CSV had been minimal to begin with?  Used only to
+    decide whether a difference is the known re-encoding defect: rerun the implementation's result against the
+    spec's stack with every item that pycoin re-encoded compared by VALUE."""
+    return None
+
+
+def _num_value(b: bytes):
+    if len(b) == 0:
+        return 0
+    v = int.from_bytes(b[:-1] + bytes([b[-1] & 0x7F]), "little")
+    return -v if b[-1] & 0x80 else v
+
+
+def _cltv_csv_reencode_explains(c: EvalCase) -> bool:
+    """the stacks differ only in items that are different encodings of the same number, or the verdicts differ
+    after such an item was produced: checked by running the spec on the script with MINIMALDATA-free flags and
+    comparing stacks by numeric value"""
+    spec = spec_eval([c])[0]
+    impl = impl_eval(c)
+    if spec[0] == "ok" and impl[0] == "ok" and len(spec[1]) == len(impl[1]):
+        return all(a == b or (len(a) <= 5 and len(b) <= 5 and _num_value(a) == _num_value(b)) for a, b in zip(spec[1], impl[1]))
+    # verdict differences: accept when the script, cut right after its first CLTV/CSV, shows the re-encoding
+    for i, op in enumerate(c.script):
+        if op in (0xB1, 0xB2):
+            cut = EvalCase(c.flags, c.sv, c.script[:i + 1], c.stack, c.tx, c.nin, c.amount)
+            s2, i2 = spec_eval([cut])[0], impl_eval(cut)
+            if s2[0] == "ok" and i2[0] == "ok" and s2[1] != i2[1]:
+                return True
+    return False
+
+
+def _spend_cltv_explains(c: SpendCase) -> bool:
+    # evaluate scriptSig then scriptPubKey as single scripts and look for the re-encoding there
+    ssig = c.tx.vin[c.nin][2]
+    st = spec_eval([EvalCase(c.flags, "B", ssig, [], c.tx, c.nin, c.amount)])[0]
+    if st[0] != "ok":
+        return False
+    return _cltv_csv_reencode_explains(EvalCase(c.flags, "B", c.script_pubkey, st[1], c.tx, c.nin, c.amount))
+
+
+def _replay_cltv():
+    # 01 00 CLTV SIZE 1 EQUAL : the non-minimal zero must stay one byte long
+    tx = SynTx(1, [[b"\x11" * 32, 0, b"", 0, []]], [[0, b""]], 10)
+    c = EvalCase(FL["CHECKLOCKTIMEVERIFY"], "B", bytes.fromhex("0100b1"), [], tx, 0, 0)
+    return chk_eval(c)
+
+
+def _replay_cltv_verdict():
+    tx = SynTx(1, [[b"\x11" * 32, 0, b"\x01\x00", 0, []]], [[0, b""]], 10)
+    c = SpendCase(FL["CHECKLOCKTIMEVERIFY"], tx, 0, bytes.fromhex("b1825187"), 0)    # CLTV SIZE 1 EQUAL
+    return chk_spend(c)
+
+
+def _replay_initial_stack():
+    return chk_eval(EvalCase(0, "B", b"\x75", [b"\x01"] * 1001))
+
+
+def _replay_low_s():
+    rng = rng_for(0, "C03", "replay-low-s")
+    c = build_spend(rng, "p2pk_not", ["s_ge_n"], FL["LOW_S"], "none")
+    c.tx.vin[c.nin][2] = c.tx.vin[c.nin][2]
+    return chk_spend(c)
+
+
+def _replay_lax():
+    """a valid signature whose DER sequence length byte is off by one, no DER flag: Core's lax parser accepts it"""
+    rng = rng_for(0, "C03", "replay-lax")
+    for _ in range(20):
+        c = build_spend(rng, "p2pk", ["seq_len_wrong"], 0, "none")
+        spec, impl = spec_verify([c])[0], impl_verify(c)
+        if spec[0] == "ok" and impl[0] != "ok":
+            return {"kind": "verdict", "level": "spend-lax", "impl": _show(impl), "spec": _show(spec), "case": c.to_json()}
+    return None
+
+
+KNOWN_REPLAYS = {
+    "cltv-csv-reencodes-operand": lambda: _replay_cltv() or _replay_cltv_verdict(),
+    "initial-stack-over-1000": _replay_initial_stack,
+    "low-s-overflowed-scalar": _replay_low_s,
+    "lax-der-parser": _replay_lax,
+}
+
+
+def search(rng, tier, disagreements, known_ids):
+    """after a proof/correspondence break: look for an input on which pycoin and the spec differ.
+    Neighbourhood first: disagreeing driver lines of the form `eval ...` / `verify ...` (either driver) are re-run
+    as differential cases, together with single-opcode perturbations; then the generic generator."""
+    cands = []
+    for d in disagreements[:60]:
+        toks = d.get("case", "").split(" ")
+        try:
+            if toks[0] == "eval" and len(toks) >= 8:
+                fl = int(toks[1][1:], 16)
+                tx = SynTx(int(toks[3][1:], 16), [[b"\x11" * 32, 0, b"", int(toks[5][1:], 16), []]], [[0, b""]], int(toks[4][1:], 16))
+                script = bytes.fromhex(toks[6][1:])
+                body = toks[7][1:-1]
+                st = [bytes.fromhex(t[1:]) for t in body.split(",")] if body else []
+                base = EvalCase(fl, toks[2], script, st, tx, 0, 0, "search")
+                cands.append(base)
+                for f2 in (0, fl ^ FL["MINIMALDATA"], close_flags(ALL_FLAGS)):
+                    cands.append(EvalCase(f2, toks[2], script, st, tx, 0, 0, "search"))
+                for k in range(min(len(script), 12)):
+                    cands.append(EvalCase(fl, toks[2], script[:k] + script[k + 1:], st, tx, 0, 0, "search"))
+                for extra in NUM_OPERANDS[:12]:
+                    cands.append(EvalCase(fl, toks[2], script, st + [extra], tx, 0, 0, "search"))
+            elif toks[0] == "verify" and len(toks) >= 8:
+                fl = int(toks[1][1:], 16)
+                body = toks[7][1:-1]
+                wit = [bytes.fromhex(t[1:]) for t in body.split(",")] if body else []
+                tx = SynTx(int(toks[2][1:], 16), [[b"\x11" * 32, 0, bytes.fromhex(toks[5][1:]), int(toks[4][1:], 16), wit]],
+                           [[0, b""]], int(toks[3][1:], 16))
+                cands.append(SpendCase(fl, tx, 0, bytes.fromhex(toks[6][1:]), 0, "search"))
+        except Exception:
+            continue
+    for c in cands:
+        name = "eval" if isinstance(c, EvalCase) else "spend"
+        pc = PropCase(name, c.to_json(), None)
+        try:
+            r = chk_eval(c) if name == "eval" else chk_spend(c)
+        except Exception as e:  # noqa
+            r = {"kind": "raises", "detail": str(e)}
+        if r is not None and classify(pc, r) not in known_ids:
+            return {"check": name, "input": pc.inp, "failure": r}
+    for pc in prop_cases(rng, tier):
+        if pc.name in ("spec_vectors", "lax"):
+            continue
+        try:
+            r = pc.thunk()
+        except Exception as e:  # noqa
+            r = {"kind": "raises", "detail": str(e)}
+        if r is not None and classify(pc, r) not in known_ids:
+            return {"check": pc.name, "input": pc.inp, "failure": r}
+    return None
+
+
+# ================================================================================================
+# build helper and stand-alone self test
+# ================================================================================================
+_DRIVER_READY = False
+
+
+def ensure_spec_driver():
+    """build Extract/ExtractC03spec.vo and ml/driver_c03spec under the common build lock (idempotent).
+    harness/c03.py may instead list "Extract/ExtractC03spec.vo" in EXTRA_TARGETS and call build_driver itself."""
+    global _DRIVER_READY
+    if _DRIVER_READY:
+        return
+    import fcntl
+    os.makedirs(ML, exist_ok=True)
+    with open(LOCK, "w") as lk:
+        fcntl.flock(lk, fcntl.LOCK_EX)
+        ensure_makefile()
+        rc, out = sh("timeout 1500 make -j8 Extract/ExtractC03spec.vo", cwd=COQ, timeout=1600)
+        if rc != 0:
+            raise RuntimeError("ExtractC03spec.vo does not build: " + out[-1500:])
+        rc, out = build_driver(DRIVER_SPEC)
+        if rc != 0:
+            raise RuntimeError("driver_c03spec does not build: " + out[-1500:])
+    _DRIVER_READY = True
+
+
+_orig_start = SpecRunner.start
+
+
+def _start_with_build(self):
+    ensure_spec_driver()
+    _orig_start(self)
+
+
+SpecRunner.start = _start_with_build
+
+
+def self_test(tier="quick", seed=0):
+    """what ./check C03 does with this module's share: vectors through the spec, the differential, known-finding
+    replays.  Returns 0 when every difference is a listed finding."""
+    import time
+    t0 = time.time()
+    rep = validate_spec_on_vectors()
+    print("[C03spec] Core vectors through the extracted spec: script_tests %d/%d (error class %d/%d), tx_valid %d/%d, "
+          "tx_invalid %d/%d (%d by CheckTransaction only), not run: %d" % (
+              rep["script_tests_pass"], rep["script_tests"], rep["script_tests_errclass_pass"], rep["script_tests"],
+              rep["tx_valid_pass"], rep["tx_valid"], rep["tx_invalid_pass"], rep["tx_invalid"],
+              rep["tx_invalid_by_checktransaction"], len(rep["not_run"])))
+    known = load_known("C03")
+    n, hits, new = 0, {}, []
+    hist = {}
+    for pc in prop_cases(rng_for(seed, "C03", "prop"), tier):
+        n += 1
+        hist[pc.name] = hist.get(pc.name, 0) + 1
+        try:
+            r = pc.thunk()
+        except Exception as e:  # noqa
+            r = {"kind": "harness-exception", "detail": "%s: %s" % (type(e).__name__, e)}
+        if r is not None:
+            k = classify(pc, r)
+            if k in known:
+                hits[k] = hits.get(k, 0) + 1
+            else:
+                new.append((pc, r, k))
+    print("[C03spec] differential: %d checks %s, known-finding hits %s, unexplained %d, %.1fs" % (n, hist, hits, len(new), time.time() - t0))
+    print("[C03spec] stats %s" % json.dumps(stats_report()))
+    print("[C03spec] lax-DER stream (informational): %s" % json.dumps({k: v for k, v in lax_report().items() if k != "by_variant"}))
+    for kid, text in sorted(known.items()):
+        rp = KNOWN_REPLAYS.get(kid)
+        still = rp() if rp else None
+        print(("KNOWN-FINDING: property=C03 id=%s %s" % (kid, text[:160])) if still else "[C03spec] note: listed finding %s no longer reproduces" % kid)
+    if new or rep["failures"] or rep["not_run"]:
+        for pc, r, k in new[:5]:
+            print("VIOLATION property=C03 check=%s input=%s failure=%s" % (pc.name, json.dumps(pc.inp)[:700], json.dumps(r)[:500]))
+        for f in rep["failures"][:5]:
+            print("SPEC-VECTOR-FAILURE", json.dumps({k: v for k, v in f.items() if k != "case"})[:500])
+        return 1
+    return 0
+
+
+if __name__ == "__main__":
+    import sys
+    sys.exit(self_test(sys.argv[1] if len(sys.argv) > 1 else "quick", int(os.environ.get("VERIF_SEED", "0") or 0)))
